@@ -574,3 +574,70 @@ func registerJSONBox(m map[string]intrinsicFn) {
 		return IfaceV{}
 	}
 }
+
+// registerProtoBox: google.golang.org/protobuf/proto Marshal/Unmarshal as a lossless box (like gob and JSON): Marshal
+// snapshots the message, Unmarshal(box) overwrites the target with a copy.  A message of a different type, or bytes
+// that are not a box, make the path inconclusive / return an error.  (Real protobuf encodes an all-default message as
+// zero bytes; the box is always 8 bytes - harnesses keep at least one field non-default.)
+func registerProtoBox(m map[string]intrinsicFn) {
+	marshal := func(in *Interp, fn *ssa.Function, args []Value) Value {
+		iv := args[len(args)-1].(IfaceV)
+		if iv.T == nil {
+			return TupleV{SliceV{}, in.newError("proto: Marshal called with nil")}
+		}
+		saveMemo := in.memo
+		in.memo = map[interface{}]interface{}{}
+		val := in.cloneValue(in.derefAll(iv.V))
+		in.memo = saveMemo
+		in.gobVals = append(in.gobVals, val)
+		k := len(in.gobVals) - 1
+		if in.jsonT == nil {
+			in.jsonT = map[int]types.Type{}
+		}
+		in.jsonT[k] = iv.T
+		bs := []*Term{in.tb.Const(8, 'P'), in.tb.Const(8, 'B'), in.tb.Const(8, 'F'), in.tb.Const(8, '#'),
+			in.tb.Const(8, uint64(k>>24)), in.tb.Const(8, uint64(k>>16)), in.tb.Const(8, uint64(k>>8)), in.tb.Const(8, uint64(k))}
+		in.abstractUsed = true
+		return TupleV{in.byteSliceOf(bs), IfaceV{}}
+	}
+	unmarshal := func(in *Interp, fn *ssa.Function, args []Value) Value {
+		data := args[len(args)-2].(SliceV)
+		miv := args[len(args)-1].(IfaceV)
+		if data.Len != 8 {
+			return in.newError("proto: cannot parse invalid wire-format data")
+		}
+		var hdr [8]byte
+		for i := range hdr {
+			t := in.sliceGet(data, i).(*Term)
+			if !t.IsConst() {
+				return in.newError("proto: cannot parse invalid wire-format data")
+			}
+			hdr[i] = byte(t.C)
+		}
+		if string(hdr[:4]) != "PBF#" {
+			return in.newError("proto: cannot parse invalid wire-format data")
+		}
+		k := int(hdr[4])<<24 | int(hdr[5])<<16 | int(hdr[6])<<8 | int(hdr[7])
+		if k >= len(in.gobVals) {
+			return in.newError("proto: cannot parse invalid wire-format data")
+		}
+		tgt, ok := miv.V.(PtrV)
+		if !ok || tgt.N == nil {
+			return in.newError("proto: Unmarshal into nil message")
+		}
+		if st := in.jsonT[k]; st == nil || !types.Identical(st, miv.T) {
+			in.unsupportedf("proto box: message of type %v unmarshalled into %v", st, miv.T)
+		}
+		saveMemo := in.memo
+		in.memo = map[interface{}]interface{}{}
+		val := in.cloneValue(in.gobVals[k])
+		in.memo = saveMemo
+		in.abstractUsed = true
+		in.store(tgt, val)
+		return IfaceV{}
+	}
+	m["google.golang.org/protobuf/proto.Marshal"] = marshal
+	m["google.golang.org/protobuf/proto.Unmarshal"] = unmarshal
+	m["github.com/golang/protobuf/proto.Marshal"] = marshal
+	m["github.com/golang/protobuf/proto.Unmarshal"] = unmarshal
+}
